@@ -28,6 +28,9 @@ func chains(tier string) []rk.Chain {
 		{Name: "q45x3-noP", QBits: []int{45, 45, 45}},
 		{Name: "q30up-x2-p61", QBits: []int{-30, -30}, PBits: []int{61}},
 		{Name: "q55x1-p61", QBits: []int{55}, PBits: []int{61}},
+		// largest supported primes: overflow margin floor(2^64/q)/2 = 4 < number of RNS digits (6 at LevelP=0),
+		// so the mid-accumulation reductions of the lazy inner products are exercised
+		{Name: "q61x6-p61x2", QBits: []int{61, 61, 61, 61, 61, 61}, PBits: []int{61, 61}},
 	}
 	if tier == "thorough" {
 		cs = append(cs,
